@@ -143,7 +143,7 @@ TECHNIQUE = ("Lean 4 proof (checked arithmetic = unbounded model on the domain, 
              "differential streams + sanitizer fault oracle on two builds")
 
 
-def _run_variant(exe, variant, tier, seed, outdir, replay, stages=None):
+def _run_variant(exe, variant, tier, seed, outdir, replay, stages=None, jobs=None):
     shutil.rmtree(outdir, ignore_errors=True)
     os.makedirs(outdir)
     args = [exe, "--seed", str(seed), "--tier", tier, "--out", outdir, "--corpus", os.path.join(C.VERIF, "corpus", PROP)]
@@ -154,6 +154,8 @@ def _run_variant(exe, variant, tier, seed, outdir, replay, stages=None):
     env.setdefault("VERIF_JOBS", os.environ.get("VERIF_JOBS", str(max(2, (C.NCPU - 2) // 2))))
     if stages:
         env["C07_STAGES"] = stages
+    if jobs:
+        env["VERIF_JOBS"] = str(jobs)
     rc, out = C.sh(args, env=env, timeout=tmo)
     return rc, out
 
@@ -249,6 +251,23 @@ def custom_main(a, seed):
             res = list(ex.map(lambda v: (v,) + _run_variant(exes[v], v, tier_, seed_, outs[v], a.replay), list(exes)))
         return outs, res
 
+    # thorough tier: the libstdc++-assertions build runs its flow stages next to the two main runs (it is dominated by a
+    # few slow cases, so it hides behind them)
+    gjob = None
+    if tier == "thorough" and not a.replay:
+        gv = next(iter(GLIBCXX_VARIANT))
+
+        def glibcxx_job():
+            try:
+                gexe = C.build_harness("h_" + PROP, gv)
+            except RuntimeError as e:
+                return None, None, str(e)
+            god = os.path.join(base + "-glibcxx", gv)
+            rc, hout = _run_variant(gexe, gv, "quick", seed, god, None, stages=GLIBCXX_STAGES, jobs=4)
+            return god, (rc, hout), None
+        gpool = ThreadPoolExecutor(1)
+        gjob = gpool.submit(glibcxx_job)
+
     outs, res = ({}, [])
     if exes:
         outs, res = run_all(tier, seed, "")
@@ -296,16 +315,13 @@ def custom_main(a, seed):
 
     # 5b. thorough tier: the flow stages once more in the libstdc++-assertions build (oracle only)
     glibcxx_info = None
-    if tier == "thorough" and not a.replay:
+    if gjob is not None:
         gv = next(iter(GLIBCXX_VARIANT))
-        try:
-            gexe = C.build_harness("h_" + PROP, gv)
-        except RuntimeError as e:
-            gexe = None
-            notes.append("libstdc++-assertions build (-D_GLIBCXX_ASSERTIONS -D_GLIBCXX_DEBUG) does not build/link: %s" % str(e)[-400:])
-        if gexe:
-            god = os.path.join(base + "-glibcxx", gv)
-            rc, hout = _run_variant(gexe, gv, "quick", seed, god, None, stages=GLIBCXX_STAGES)
+        god, gres, gerr = gjob.result()
+        if gerr:
+            notes.append("libstdc++-assertions build (-D_GLIBCXX_ASSERTIONS -D_GLIBCXX_DEBUG) does not build/link: %s" % gerr[-400:])
+        else:
+            rc, hout = gres
             if rc != 0:
                 problems.append({"kind": "harness-crash", "detail": "%s exit %d\n%s" % (gv, rc, hout[-3000:])})
             gst = {}
